@@ -10,6 +10,10 @@ use std::process::{Command, Stdio};
 pub struct Campaign {
     /// names the work directory (harness/target/fuzzwork-<name>)
     pub name: &'static str,
+    /// the fuzz target (fuzz/fuzz_targets/<target>.rs)
+    pub target: &'static str,
+    /// build the target (and regexml) with `--cfg regexml_verif`
+    pub hooks: bool,
     pub runs_per_job: u64,
     pub jobs: u32,
     pub timeout_s: u32,
@@ -65,16 +69,16 @@ pub fn run(c: &Campaign, seeds: &[StrCase]) -> Result<(Vec<Found>, u64), String>
     let build = Command::new("cargo")
         .args(["+nightly", "fuzz", "build", "--fuzz-dir"])
         .arg(&fdir)
-        .arg("api")
+        .arg(c.target)
         .current_dir(&hdir)
         .env("CARGO_NET_OFFLINE", "true")
-        .env_remove("RUSTFLAGS")
+        .env("RUSTFLAGS", if c.hooks { "--cfg regexml_verif" } else { "" })
         .output()
         .map_err(|e| format!("cannot run cargo fuzz: {e}"))?;
     if !build.status.success() {
         return Err(format!("cargo fuzz build failed: {}", String::from_utf8_lossy(&build.stderr).lines().rev().take(8).collect::<Vec<_>>().join(" | ")));
     }
-    let bin = fdir.join("target/x86_64-unknown-linux-gnu/release/api");
+    let bin = fdir.join("target/x86_64-unknown-linux-gnu/release").join(c.target);
     if !bin.exists() {
         return Err(format!("fuzz binary not found at {bin:?}"));
     }
